@@ -103,6 +103,23 @@ def _run_workers(prop_id, specs, workdir, timeout_s):
     running = {}
     results = [None] * len(specs)
     errors = []
+    import signal
+
+    def _on_term(signum, frame):
+        raise KeyboardInterrupt()
+    try:
+        signal.signal(signal.SIGTERM, _on_term)
+    except Exception:
+        pass
+    try:
+        _worker_loop(prop_id, pending, running, results, errors, workdir, timeout_s)
+    finally:
+        for i, (p, t0, op, ep, ef) in list(running.items()):
+            _kill_group(p)
+    return results, errors
+
+
+def _worker_loop(prop_id, pending, running, results, errors, workdir, timeout_s):
     while pending or running:
         while pending and len(running) < NCPU:
             i, spec = pending.pop(0)
@@ -112,20 +129,24 @@ def _run_workers(prop_id, specs, workdir, timeout_s):
             with open(sp, 'w') as f:
                 json.dump(spec, f)
             ef = open(ep, 'w')
-            p = subprocess.Popen([sys.executable, '-m', 'rv.worker', prop_id, sp, op], stdout=ef, stderr=ef, cwd=env.VERIF_DIR)
+            p = subprocess.Popen([sys.executable, '-m', 'rv.worker', prop_id, sp, op], stdout=ef, stderr=ef, cwd=env.VERIF_DIR, start_new_session=True)
             running[i] = (p, time.time(), op, ep, ef)
         done = []
         for i, (p, t0, op, ep, ef) in running.items():
             rc = p.poll()
             if rc is None:
                 if time.time() - t0 > timeout_s:
-                    p.kill()
-                    p.wait()
+                    _kill_group(p)
                     ef.close()
                     errors.append('shard %d: watchdog fired after %ds (inconclusive)\n%s' % (i, timeout_s, _tail(ep)))
                     done.append(i)
                 continue
             ef.close()
+            try:
+                import signal
+                os.killpg(p.pid, signal.SIGKILL)   # orphaned children of a finished worker, if any
+            except Exception:
+                pass
             if rc != 0 or not os.path.exists(op):
                 errors.append('shard %d: worker exit %s\n%s' % (i, rc, _tail(ep)))
             else:
@@ -137,7 +158,16 @@ def _run_workers(prop_id, specs, workdir, timeout_s):
             del running[i]
         if running and not done:
             time.sleep(0.02)
-    return results, errors
+
+
+def _kill_group(p):
+    # the worker runs in its own session: kill its whole process group (node drivers, CLI children)
+    import signal
+    try:
+        os.killpg(p.pid, signal.SIGKILL)
+    except Exception:
+        p.kill()
+    p.wait()
 
 
 def _tail(path, n=30):
